@@ -40,6 +40,9 @@ void harness_alloc_failure(void)
 #if STEP == 9
 	cJSON *fetch1 = mkreq("fetch", 2, fetch_params("f1")), *fetch2 = mkreq("fetch", 3, fetch_params("f2"));   /* fill the initial subscription table (2 slots) */
 #endif
+#if STEP == 10
+	cJSON *set0 = mkreq("set", 7, path_params("a", 3));       /* B's request, routed to the owner A: the step under test is A's reply */
+#endif
 	scn_build_end();
 #if STEP != 0
 	__CPROVER_assume(dispatch(&A, add) == 0);
@@ -49,6 +52,11 @@ void harness_alloc_failure(void)
 #endif
 #if STEP == 9
 	__CPROVER_assume(dispatch(&B, fetch1) == 0 && dispatch(&B, fetch2) == 0);
+#endif
+#if STEP == 10
+	reset_log();
+	__CPROVER_assume(dispatch(&B, set0) == 0 && nlog == 1 && LOG[0].kind == K_ROUTED && LOG[0].to == &A);
+	char routed_id[20]; cpystr(routed_id, sizeof(routed_id), LOG[0].id_str);
 #endif
 	/* the request under test */
 	scn_build_begin();
@@ -72,6 +80,10 @@ void harness_alloc_failure(void)
 	cJSON *req = mkreq("info", 7, 0); struct peer *actor = &B;
 #elif STEP == 9
 	cJSON *req = mkreq("fetch", 7, fetch_params("f3")); struct peer *actor = &B;      /* third subscription: the element's table has to grow */
+#elif STEP == 10
+	/* the owner's reply: a response object; the answer it produces goes to the caller B under B's id 7 */
+	cJSON *req = cJSON_CreateObject(); cJSON_AddItemToObject(req, "id", cJSON_CreateString(routed_id)); cJSON_AddItemToObject(req, "result", mknumber(v));
+	struct peer *actor = &B; struct peer *sender = &A;
 #endif
 	scn_build_end();
 	reset_log();
@@ -81,7 +93,11 @@ void harness_alloc_failure(void)
 	long k = KBASE;
 	verif_alloc_calls = 0; verif_alloc_failed = 0;
 	verif_fail_at = k;
+#if STEP == 10
+	int r = dispatch(sender, req);
+#else
 	int r = dispatch(actor, req);
+#endif
 	verif_fail_at = -1;
 	(void)r;
 #ifdef VERIF_REPLAY
@@ -91,7 +107,10 @@ void harness_alloc_failure(void)
 	CHECK(answers <= 1, "C15.at_most_one_response_under_allocation_failure");
 	struct sent *resp = 0; for (int i = 0; i < nlog; i++) if (LOG[i].kind == K_RESPONSE && LOG[i].to == actor) resp = &LOG[i];
 	if (resp) CHECK(resp->has_result != resp->is_error, "C15.response_still_has_result_xor_error");
-#if STEP == 5
+#if STEP == 10
+	if (!verif_alloc_failed) CHECK(answers == 1 && resp && resp->has_result && resp->value_int == v && count_responses(&A) == 0, "C15.request_succeeds_without_failure");
+	CHECK(timers_alive() == 0, "C15.no_timer_left");
+#elif STEP == 5
 	if (!verif_alloc_failed) CHECK(answers == 0 && count_kind(&A, K_ROUTED) == 1, "C15.request_succeeds_without_failure");
 #else
 	if (!verif_alloc_failed) CHECK(answers == 1 && resp && resp->has_result, "C15.request_succeeds_without_failure");
